@@ -43,6 +43,9 @@ Definition src_check_all (op : sval) : list sval :=
   match op with
   | SL [SY o; SY n; SB b] =>
       if (o =? "dec") || (o =? "inflated") || (o =? "scribble") then
+        if n =? "CompoundPacket" then
+          cmp "compound_unmarshal" (sres (fun l => SL (map s_packet l)) (Compound_unmarshal b)) (GoSrc.src_compound_unmarshal b)
+        else
         match dec_by_name n b with Some m => cmp "unmarshal" m (GoSrc.src_unmarshal n b) | None => [] end
       else []
   | SL [SY o; SY n; SL bs] =>
@@ -68,7 +71,37 @@ Definition src_check_all (op : sval) : list sval :=
         | None => []
         end
       else []
+  | SL [SY o; SB b] =>
+      if (o =? "dgram") || (o =? "redec") || (o =? "strdec") || (o =? "inbuf") then
+        cmp "datagram" (sres (fun l => SL (map s_packet l)) (Unmarshal b)) (GoSrc.src_dgram b)
+      else []
   | SL [SY o; SL l] =>
+      if o =? "cp" then
+        match p_packets (SL l), GoSrc.src_compound l with
+        | Some ps, Some comps =>
+            let get k := match find (fun kv => String.eqb (fst kv) k) comps with Some (_, v) => Some v | None => None end in
+            cmp "compound_validate" (sres (fun _ => SY "unit") (Compound_validate ps)) (get "validate")
+            ++ cmp "compound_cname"
+                 (match Compound_cname ps with
+                  | Ok (t, e) => if e then SL [SY "err"] else SL [SY "ok"; SB t]
+                  | Err => SL [SY "err"] | Panic => SL [SY "panic"] | Fuel => SL [SY "fuel"] end) (get "cname")
+            ++ cmp "compound_marshal" (sres SB (marshal_packet (PCompound ps))) (get "marshal")
+            ++ cmp_plain "compound_size" (SN (size_packet (PCompound ps))) (get "size")
+            ++ cmp_plain "compound_dest" (sNs (dest_packet (PCompound ps))) (get "dest")
+        | _, _ => []
+        end
+      else
+      if o =? "encs" then
+        match p_packets (SL l) with
+        | Some ps => cmp "marshal_list" (sres SB (Marshal ps)) (GoSrc.src_encs l)
+        | None => []
+        end
+      else if o =? "split" then
+        match p_bytes_list (SL l) with
+        | Some fs => cmp "datagram" (sres (fun l => SL (map s_packet l)) (Unmarshal (List.concat fs))) (GoSrc.src_dgram (List.concat fs))
+        | None => []
+        end
+      else
       if o =? "nackpairs" then
         match as_Ns (SL l) with
         | Some ns => cmp_plain "nackpairs" (SL (map s_pair (nack_pairs_from ns))) (GoSrc.src_nackpairs (map Z.of_N ns))
@@ -78,8 +111,33 @@ Definition src_check_all (op : sval) : list sval :=
   | _ => []
   end.
 
+(* a transport-wide-cc frame can announce 65 535 statuses in 20 octets; the translated decoder appends one delta per
+   announced status with `++` (quadratic on a list).  Cases containing such a frame are left to the model/implementation
+   comparison: [heavy b] walks the frames of b by their length fields (it also looks at b as a single frame). *)
+Definition twcc_count_at (b : bytes) : N :=
+  match b with
+  | b0 :: b1 :: _ :: _ :: r =>
+      if (N.land (b2n b0) 31 =? 15)%N && (b2n b1 =? 205)%N then
+        match skipn 10 r with c0 :: c1 :: _ => b2n c0 * 256 + b2n c1 | _ => 0 end%N
+      else 0%N
+  | _ => 0%N
+  end.
+Fixpoint heavy_frames (fuel : nat) (b : bytes) : bool :=
+  match fuel, b with
+  | S f, _ :: _ :: l0 :: l1 :: _ =>
+      (1500 <? twcc_count_at b)%N
+      || heavy_frames f (skipn (N.to_nat (4 * (b2n l0 * 256 + b2n l1 + 1))) b)
+  | _, _ => false
+  end.
+Fixpoint sval_heavy (v : sval) : bool :=
+  match v with
+  | SB b => heavy_frames (S (List.length b / 4)) b
+  | SL l => existsb sval_heavy l
+  | _ => false
+  end.
+
 Definition src_check (op : sval) : list sval :=
-  if (src_check_bound <? sval_weight op)%N then [] else src_check_all op.
+  if (src_check_bound <? sval_weight op)%N || sval_heavy op then [] else src_check_all op.
 
 Definition src_checks (cases : list sval) : list sval :=
   flat_map (fun c => match c with
